@@ -32,10 +32,11 @@ structure LiveObs where
   code : Addr → Code
   stor : Addr → Nat → Nat
   logs : List Log
+  stake : Addr → Nat
 
 def Obs.toLive (o : Obs) : LiveObs :=
   { live := fun a => o.exist a = true ∧ o.nonEmpty a, nonce := o.nonce, bal := o.bal, code := o.code,
-    stor := o.stor, logs := o.logs }
+    stor := o.stor, logs := o.logs, stake := o.stake }
 
 def liveObs (w : World) : LiveObs := (obs w).toLive
 
@@ -57,6 +58,31 @@ def Frame.plain : Frame → Bool
   | .stake .. => false
   | .unstake .. => false
   | .unstakeall .. => false
+  | .stakenum .. => false
+
+/-- `GasCut f f'`: `f'` is what `f` becomes under some allotment of gas -- any frame body may run out
+    of gas at any point (everything from there on is replaced by the `oog` ending), at any nesting depth,
+    and a CREATE whose init code would have deposited its code may instead be unable to pay for it
+    (`retCode` becomes `retBig`). The gas abstraction of the model says: the real EVM with a given gas
+    limit behaves like the model on SOME `GasCut` of the program the harness wrote down; the theorems are
+    shown for EVERY `GasCut` (`Props/C12.lean`, `*_any_gas`). -/
+inductive GasCut : Frame → Frame → Prop where
+  | refl (f : Frame) : GasCut f f
+  | oog (f : Frame) : GasCut f (.done .oog)
+  | deposit (t : Nat) : GasCut (.done (.retCode t)) (.done .retBig)
+  | sstore (k v : Nat) {r r' : Frame} : GasCut r r' → GasCut (.sstore k v r) (.sstore k v r')
+  | tstore (k v : Nat) {r r' : Frame} : GasCut r r' → GasCut (.tstore k v r) (.tstore k v r')
+  | log (n : Fin 5) (t : Nat) {r r' : Frame} : GasCut r r' → GasCut (.log n t r) (.log n t r')
+  | call (id : Nat) (kind : CallKind) (tg : Addr) (v : Nat) {b b' r r' : Frame} :
+      GasCut b b' → GasCut r r' → GasCut (.call id kind tg v b r) (.call id kind tg v b' r')
+  | create (id : Nat) (two : Bool) (salt v : Nat) {b b' r r' : Frame} :
+      GasCut b b' → GasCut r r' → GasCut (.create id two salt v b r) (.create id two salt v b' r')
+  | authcall (id : Nat) (au : Option Addr) (n : Nat) (tg : Addr) (v : Nat) {b b' r r' : Frame} :
+      GasCut b b' → GasCut r r' → GasCut (.authcall id au n tg v b r) (.authcall id au n tg v b' r')
+  | stake (a : Nat) {r r' : Frame} : GasCut r r' → GasCut (.stake a r) (.stake a r')
+  | unstake (a : Nat) {r r' : Frame} : GasCut r r' → GasCut (.unstake a r) (.unstake a r')
+  | unstakeall {r r' : Frame} : GasCut r r' → GasCut (.unstakeall r) (.unstakeall r')
+  | stakenum (p : Addr) {r r' : Frame} : GasCut r r' → GasCut (.stakenum p r) (.stakenum p r')
 
 /-- world at the snapshot point of `create` (after the creator's nonce bump and the access-list
     insertion, which Ethereum keeps as well); the unchanged world when a pre-check refuses -/
